@@ -20,6 +20,7 @@ def load_check(pid):
 
 
 _CHECK = None
+ABORT_LIMIT = 48
 
 
 def _init(pid):
@@ -84,14 +85,26 @@ def run_check(pid, tier, jobs):
         ctx = mp.get_context("fork")
         pool = ctx.Pool(min(jobs, len(units)), initializer=_init, initargs=(pid,))
         outs = pool.imap_unordered(_work, units, chunksize=1)
+    cut_short = False
     for st, r in outs:
         if st == "ok":
             res.merge(r)
         else:
             errors.append(r)
+        if res.status["aborted"] >= ABORT_LIMIT:
+            # the library runs away (endless loops) in execution after execution: every one of them costs the full
+            # per-execution CPU cap, so the remaining units are dropped and the run is reported as capped
+            cut_short = True
+            res.capped = True
+            break
     if pool is not None:
-        pool.close()
+        if cut_short:
+            pool.terminate()
+        else:
+            pool.close()
         pool.join()
+    if cut_short:
+        print(f"HARNESS-NOTE {pid}: {res.status['aborted']} executions hit the per-execution CPU cap (runaway loops inside the library); remaining units dropped", file=sys.stderr)
     if errors:
         print(f"HARNESS-ERROR {pid}: {len(errors)} unit(s) failed in the harness itself", file=sys.stderr)
         print(errors[0], file=sys.stderr)
